@@ -25,13 +25,17 @@ def a1(r, c):
     return f'{repo.col_letters(c)}{r}'
 
 
-def arg_text(arg):
+OFF = 30           # the second probe holds the block 30 columns to the right: beyond the last stored cell of every row (formulas sit in column Z)
+
+
+def arg_text(arg, off=0):
     if 'far' in arg:
         return 'T!A1:B2'
     if 'lit' in arg:
         q = arg['lit']
         return str(q // 4) if q % 4 == 0 else repr(q / 4)
     r1, c1, r2, c2 = arg['area']
+    c1, c2 = c1 + off, c2 + off
     sp = arg.get('spell', 'area')
     if sp == 'cell':
         return a1(r1, c1)
@@ -70,8 +74,16 @@ def setup(run, R):
         if len(sh['args']) == 2:
             forms.append(f'=SUM({arg_text(sh["args"][0])})+SUM({arg_text(sh["args"][1])})')
             index.append((si, 'SPLITSUM'))
-    _S.update(tab=tab, forms=forms, index=index, R=R,
-              probe=repo.Probe(forms, sheets=[('T', {(0, 0): 100, (1, 0): 200, (0, 1): 't', (1, 1): 300})]))
+    forms_out = []
+    for si, sh in enumerate(tab['shapes']):
+        args = ','.join(arg_text(a, OFF) for a in sh['args'])
+        forms_out += [f'={f}({args})' for f in FUNS]
+        if len(sh['args']) == 1 and 'area' in sh['args'][0] and sh['args'][0].get('spell') == 'area':
+            forms_out.append(f'=COUNTBLANK({args})')
+        if len(sh['args']) == 2:
+            forms_out.append(f'=SUM({arg_text(sh["args"][0], OFF)})+SUM({arg_text(sh["args"][1], OFF)})')
+    far = [('T', {(0, 0): 100, (1, 0): 200, (0, 1): 't', (1, 1): 300})]
+    _S.update(tab=tab, forms=forms, index=index, R=R, probe=repo.Probe(forms, sheets=far), forms_out=forms_out, probe_out=repo.Probe(forms_out, sheets=far))
     return tab
 
 
@@ -91,12 +103,12 @@ def show(kind, p):
     return repr(p) if kind == 'val' else f'{kind}:{type(p).__name__}: {p}'[:100]
 
 
-def overrides_for(blk, tab):
+def overrides_for(blk, tab, off=0):
     ov = []
     for i, k in enumerate(blk):
         if k == 'B':
             continue
-        ov.append((0, i % 2, i // 2, kind_value(k, i, tab)))
+        ov.append((0, i % 2 + off, i // 2, kind_value(k, i, tab)))
     return ov
 
 
@@ -104,10 +116,15 @@ def _blk_job(recs):
     try:
         p, tab, index = _S['probe'], _S['tab'], _S['index']
         out = []
-        for rec in recs:
+        for ri, rec in enumerate(recs):
             res = p.eval(overrides_for(rec['blk'], tab))
+            both = list(zip(index, res))
+            if ri % 3 == 0:
+                # the same block held in cells OUTSIDE the stored data of the sheet (contents arrive as overrides only)
+                both += [((si, f + '@out'), r) for (si, f), r in zip(index, _S['probe_out'].eval(overrides_for(rec['blk'], tab, OFF)))]
             bad, n = [], 0
-            for (si, f), r in zip(index, res):
+            for (si, f0), r in both:
+                f = f0.split('@')[0]
                 row = rec['row'][si]
                 v = num4(*r)
                 exp, ok = None, True
@@ -133,7 +150,7 @@ def _blk_job(recs):
                     ok = v == exp
                 n += 1
                 if not ok:
-                    bad.append((si, f, str(exp / 4), show(*r)))
+                    bad.append((si, f0, str(exp / 4), show(*r)))
             out.append((n, bad))
         return out
     except Exception as e:
@@ -142,9 +159,10 @@ def _blk_job(recs):
 
 
 def formula_of(si, f):
-    for (s2, f2), form in zip(_S['index'], _S['forms']):
-        if s2 == si and f2 == f:
-            return form
+    forms = _S['forms_out'] if f.endswith('@out') else _S['forms']
+    for (s2, f2), form in zip(_S['index'], forms):
+        if s2 == si and f2 == f.split('@')[0]:
+            return form + (' (block held outside the stored data)' if f.endswith('@out') else '')
     return '?'
 
 
@@ -410,9 +428,10 @@ def replay(run, case):
     tab = _S['tab']
     cols = i.get('cols', 2)
     blk = i['blk']
-    ov = [(0, k % cols, k // cols, kind_value(kd, k, tab)) for k, kd in enumerate(blk) if kd != 'B']
+    out = str(i.get('f', '')).endswith('@out')
+    ov = [(0, k % cols + (OFF if out else 0), k // cols, kind_value(kd, k, tab)) for k, kd in enumerate(blk) if kd != 'B']
     sheets = [('T', {(0, 0): 100, (1, 0): 200, (0, 1): 't', (1, 1): 300})]
-    r = repo.Probe([i['formula']], sheets=sheets).eval(ov)[0]
+    r = repo.Probe([i['formula'].split(' (block held')[0]], sheets=sheets).eval(ov)[0]
     if 'args' in i:
         judge_events(run, [mk_event(blk, i['args'], i['f'], r, i['formula'])], 'replay', cols)
     else:
